@@ -262,8 +262,25 @@ func (y *c15Sys) build(s *c15State, votes []c15Vote, height uint64, ts int64) ([
 	signH := int64(height) - 1
 	for _, v := range votes {
 		addr := ed25519PubAddr(v.key)
+		// the power an entry claims for itself is the submitter's to choose: the weakest validators of
+		// the recorded set (and unknown ones) claim an enormous power, the others 1 — only the recorded
+		// powers may count
+		claimed := int64(1) << 40
+		if set := c15Sets[y.voters(s)]; len(set.powers) > 0 {
+			minP := set.powers[0]
+			for _, p := range set.powers {
+				if p < minP {
+					minP = p
+				}
+			}
+			for i, k := range set.vals {
+				if k == v.key && set.powers[i] > minP {
+					claimed = 1
+				}
+			}
+		}
 		entry := func(ext, sig []byte, flag cmtproto.BlockIDFlag) {
-			eci.Votes = append(eci.Votes, cometabci.ExtendedVoteInfo{Validator: cometabci.Validator{Address: addr, Power: 1}, VoteExtension: ext, ExtensionSignature: sig, BlockIdFlag: flag})
+			eci.Votes = append(eci.Votes, cometabci.ExtendedVoteInfo{Validator: cometabci.Validator{Address: addr, Power: claimed}, VoteExtension: ext, ExtensionSignature: sig, BlockIdFlag: flag})
 		}
 		mark := func(pairs []string) {
 			for _, p := range pairs {
